@@ -82,3 +82,12 @@ def register(check, not_yet):
           "Bound: |a| <= 2-3, |b| <= |a|-1+len(replacement), every code point a symbol may contain. The collision classes are recorded "
           "known findings (munge is non-injective by design); a collision outside them is a violation. def/alias/refer histories are not yet checked.",
           "SMT (z3 LIA) over a symbolic interpretation of the real munge AST, flattened string encoding", "DESIGN.md section 4 C10", "B:pysym")
+    check("C03", "other",
+          "Bounded symbolic verification of the real printer and reader under CrossHair: print -> read -> compare (one form, equal, same "
+          "type, deterministic, same text when re-printed) for every string up to the length bound over an escape-relevant alphabet "
+          "(solver-chosen indices, exhaustive), symbolic ints/ratios/bytes, boundary floats, decimals under *print-dup*, imaginary "
+          "numbers, keywords/symbols, collection shapes with symbolic leaves under a symbolic *print-namespace-maps*, metadata under "
+          "*print-meta*, UUID/regex; two recorded findings (regex backslashes, #py dict key order) are isolated in their own obligations.",
+          "Bound: strings <= 2 (quick) / 3 (thorough) over 23 characters; ints realised by str(); #inst not checked. "
+          "Reader line/col metadata is stripped before comparing re-printed text.",
+          "CrossHair (z3) symbolic execution of obj.lrepr / reader.read_str", "DESIGN.md section 4 C03", "A:crosshair")
